@@ -5,7 +5,7 @@ import ast
 from fractions import Fraction
 
 from sa.model import AnalysisError, calls_in, kwarg, FuncInfo
-from sa.paths import function_paths, end_kind, consistent
+from sa.paths import function_paths, end_kind, consistent, must_raise
 from sa.util import U, Env, call_is, TupleItem, const_value
 from rules import wiring
 
@@ -361,6 +361,8 @@ def run(ctx):
     vs = mix.methods.get("_validate_source_dimension")
     okv = any(end_kind(p) == "raise" and any(s[0] == "cond" and "value.shape[-1] not in source_ndims" in U(s[1]) and s[2] for s in p)
               for p in function_paths(vs.node))
+    n_mr, off_mr = must_raise(vs.node, lambda e: "value.shape[-1] not in source_ndims" in U(e), when=True)
+    okv = okv and n_mr >= 1 and not off_mr
     ctx.check(okv, "C15.b", "TransformedHistogramMixin._validate_source_dimension", "raises when the last dimension is not a declared source dimension",
               "inputs of the wrong dimensionality are no longer refused", vs.where)
 
